@@ -646,6 +646,15 @@ func (c *wsConn) tryReconnect(ctx context.Context) bool {
 	}
 
 	// connection dropped unexpectedly, do our best to recover it
+
+	// mark the connection as unusable until a new one is installed; when we
+	// get here because reading a frame body failed, incomingErr is not set yet
+	c.errLk.Lock()
+	if c.incomingErr == nil {
+		c.incomingErr = errors.New("websocket connection lost")
+	}
+	c.errLk.Unlock()
+
 	c.closeInFlight()
 	c.closeChans()
 	c.incoming = make(chan io.Reader) // listen again for responses
